@@ -23,7 +23,11 @@ from common import Case, sx
 
 PROP = "C08"
 RULE = ("scenario = (functions with 1-3 stacked event/mqtt/webhook decorators, <= 4 in total, keys shared or distinct, "
-        "optional filter expression from a comparison/and/or/not grammar, optional kwargs overriding data) x (<= 20 "
+        "optional filter expression from a comparison/and/or/not grammar over ALL documented keyword variables of the "
+        "trigger kind (event: data keys, event_type, trigger_type, context; mqtt: topic, payload, payload_obj whole and "
+        "subscripted, qos, retain; webhook: webhook_id, payload whole and subscripted), optional kwargs overriding data; "
+        "occurrences are aimed at the filters of the scenario so that both qualifying and non-qualifying ones occur; plus "
+        "fixed directed scenarios with one filter per variable) x (<= 20 "
         "occurrences with generated payloads incl. keys overriding trigger_type/context, JSON / non-JSON MQTT payloads, "
         "JSON / form webhooks with repeated fields, unmatched keys) x (back-to-back or virtual pauses; runs sleeping "
         "0/0.5/2 s; runs emitting events/state/service with none/explicit/junk context, cascading); each under "
@@ -120,33 +124,148 @@ def gen_val(rng):
     return None
 
 
+# the documented keyword variables of each trigger kind (docs/reference.rst): every one of them can appear in a filter
+FILTER_VARS = {
+    "e": ["x", "y", "n", "event_type", "trigger_type", "context"],
+    "m": ["topic", "payload", "payload_obj", "payload_obj[]", "qos", "retain", "trigger_type"],
+    "w": ["webhook_id", "payload", "payload[]", "trigger_type"],
+}
+
+
+def gen_atom(rng, kind, var=None):
+    """one comparison / truthiness test over one documented variable of the trigger kind"""
+    var = var or rng.choice(FILTER_VARS[kind])
+    ops = list(OPSYM)
+    if kind == "e":
+        if var == "context":
+            return ["name", "context"]
+        if var == "event_type":
+            return ["cmp", rng.choice(["eq", "ne"]), "event_type", "-", rng.choice(EV_TYPES + OUT_TYPES)]
+        if var == "trigger_type":
+            return ["cmp", rng.choice(["eq", "ne"]), "trigger_type", "-", rng.choice(["event", "zzz"])]
+        if rng.random() < 0.15:
+            return ["name", var]
+        return ["cmp", rng.choice(ops), var, "-", rng.choice([0, 1, 3, "a", "on"])]
+    if kind == "m":
+        if var == "topic":
+            return ["cmp", rng.choice(["eq", "ne"]), "topic", "-", rng.choice(["t/a", "t/b", "u"])]
+        if var == "payload":
+            return ["cmp", rng.choice(["eq", "ne"]), "payload", "-", rng.choice(["on", "5", '{"a": 1}'])]
+        if var == "payload_obj":
+            return ["cmp", rng.choice(ops), "payload_obj", "-", rng.choice([1, 5, "s"])]
+        if var == "payload_obj[]":
+            return ["cmp", rng.choice(["eq", "ne", "gt", "le"]), "payload_obj", rng.choice(["a", "state"]), rng.choice([1, 2, "on"])]
+        if var == "qos":
+            return ["cmp", rng.choice(["eq", "ne", "gt", "lt", "ge"]), "qos", "-", rng.choice([0, 1])]
+        if var == "retain":
+            return ["name", "retain"] if rng.random() < 0.5 else ["cmp", "eq", "retain", "-", rng.choice([0, 1])]
+        return ["cmp", rng.choice(["eq", "ne"]), "trigger_type", "-", "mqtt"]
+    if var == "webhook_id":
+        return ["cmp", rng.choice(["eq", "ne"]), "webhook_id", "-", rng.choice(HOOKS)]
+    if var == "payload":
+        return ["name", "payload"]
+    if var == "payload[]":
+        return ["cmp", rng.choice(ops), "payload", rng.choice(["a", "b", "k"]), rng.choice([1, "1", "2", "v"])]
+    return ["cmp", rng.choice(["eq", "ne"]), "trigger_type", "-", "webhook"]
+
+
 def gen_filter(rng, kind, depth=0):
     r = rng.random()
     if depth < 2 and r < 0.25:
         return [rng.choice(["and", "or"]), gen_filter(rng, kind, depth + 1), gen_filter(rng, kind, depth + 1)]
-    if depth < 2 and r < 0.32:
+    if depth < 2 and r < 0.31:
         return ["not", gen_filter(rng, kind, depth + 1)]
-    if r < 0.37:
+    if r < 0.34:
         return ["true"]
-    if kind == "e":
-        if r < 0.45:
-            return ["name", rng.choice(DATA_KEYS)]
-        key = rng.choice(DATA_KEYS + ["event_type", "trigger_type"])
-        lit = rng.choice([0, 1, 3, "a", "on", "e1", "event"])
-        return ["cmp", rng.choice(list(OPSYM)), key, "-", lit]
-    if kind == "m":
-        c = rng.random()
-        if c < 0.3:
-            return ["cmp", rng.choice(["eq", "ne", "gt", "lt"]), "qos", "-", rng.choice([0, 1])]
-        if c < 0.6:
-            return ["cmp", rng.choice(["eq", "ne"]), rng.choice(["payload", "topic"]), "-", rng.choice(["on", "t/a", "5"])]
-        if c < 0.8:
-            return ["cmp", rng.choice(list(OPSYM)), "payload_obj", "-", rng.choice([1, 5, "s"])]
-        return ["cmp", rng.choice(["eq", "gt", "le"]), "payload_obj", "a", rng.choice([1, 2])]
-    c = rng.random()
-    if c < 0.3:
-        return ["cmp", rng.choice(["eq", "ne"]), "webhook_id", "-", rng.choice(HOOKS)]
-    return ["cmp", rng.choice(list(OPSYM)), "payload", rng.choice(["a", "b", "k"]), rng.choice([1, "1", "2", "v"])]
+    return gen_atom(rng, kind)
+
+
+def filt_atoms(f):
+    if f is None:
+        return []
+    if f[0] in ("and", "or"):
+        return filt_atoms(f[1]) + filt_atoms(f[2])
+    if f[0] == "not":
+        return filt_atoms(f[1])
+    if f[0] in ("cmp", "name"):
+        return [f]
+    return []
+
+
+def filt_vars(f):
+    """the documented variables a filter refers to ('payload_obj[]' = subscripted)"""
+    out = set()
+    for a in filt_atoms(f):
+        if a[0] == "name":
+            out.add(a[1])
+        else:
+            out.add(a[2] if a[3] == "-" else a[2] + "[]")
+    return out
+
+
+def sat_value(rng, atom):
+    """a value that makes the atom true (mostly) - used to aim occurrences at the filters of the scenario"""
+    if atom[0] == "name":
+        return 1
+    _, op, _key, _sub, lit = atom
+    if isinstance(lit, int):
+        return {"eq": lit, "ne": lit + 1, "gt": lit + 1, "ge": lit, "lt": lit - 1, "le": lit}[op]
+    return {"eq": lit, "ne": lit + "x", "gt": lit + "z", "ge": lit, "lt": "", "le": lit}[op]
+
+
+def aimed_assign(rng, d):
+    """variable -> value suggested by the decorator's filter (first atom of each variable wins)"""
+    out = {}
+    for a in filt_atoms(d["filt"]):
+        key = a[1] if a[0] == "name" else (a[2] if a[3] == "-" else (a[2], a[3]))
+        if key not in out:
+            out[key] = sat_value(rng, a)
+    return out
+
+
+def gen_occurrence(rng, d, aim):
+    """an occurrence for the key of decorator d; with `aim` its values follow the filter of d"""
+    asg = aimed_assign(rng, d) if aim else {}
+    if d["kind"] == "m":
+        sub = d["key"]
+        topic = sub
+        if sub == "t/+":
+            topic = asg.get("topic") if asg.get("topic") in ("t/a", "t/b") else rng.choice(["t/a", "t/b"])
+        subs_ = {k[1]: v for k, v in asg.items() if isinstance(k, tuple) and k[0] == "payload_obj"}
+        if subs_:
+            payload = json.dumps(subs_)
+        elif "payload_obj" in asg:
+            payload = json.dumps(asg["payload_obj"])
+        elif isinstance(asg.get("payload"), str):
+            payload = asg["payload"]
+        else:
+            payload = rng.choice(["on", "5", '{"a": 1, "b": "q"}', '{"a": 2}', '{"state": "on"}', '"s"', "not json {", "",
+                                  "null", "7"])
+        qos = asg.get("qos", rng.choice([0, 0, 1, 2]))
+        qos = min(2, max(0, qos if isinstance(qos, int) else 0))
+        retain = bool(asg["retain"]) if "retain" in asg else rng.random() < 0.3
+        return ["m", sub, topic, payload, qos, retain]
+    if d["kind"] == "w":
+        subs_ = {k[1]: v for k, v in asg.items() if isinstance(k, tuple) and k[0] == "payload"}
+        if subs_ and all(isinstance(v, str) and v and "=" not in v and "&" not in v for v in subs_.values()) and rng.random() < 0.5:
+            return ["w", d["key"], False, None, [[k, v] for k, v in subs_.items()] + ([[next(iter(subs_)), "zz"]] if rng.random() < 0.3 else [])]
+        if subs_:
+            return ["w", d["key"], True, subs_, []]
+        if rng.random() < 0.5:
+            return ["w", d["key"], True, rng.choice([{"a": 1, "k": "v"}, {"b": "2"}, {}, 5, {"a": 2, "b": 1}]), []]
+        return ["w", d["key"], False, None,
+                [[rng.choice(["a", "b", "k"]), rng.choice(["1", "2", "v"])] for _ in range(rng.randint(0, 4))]]
+    data = []
+    for k in DATA_KEYS:
+        if k in asg:
+            data.append([k, asg[k]])
+        elif rng.random() < 0.5:
+            data.append([k, gen_val(rng)])
+    if rng.random() < 0.06:
+        data.append(["trigger_type", "zzz"])
+    if rng.random() < 0.05:
+        data.append(["context", 7])
+    return ["e", d["key"], data]
 
 
 def gen_scenario(rng, tier, search):
@@ -199,45 +318,64 @@ def gen_scenario(rng, tier, search):
                 emits.append(em)
         funcs.append({"name": f"f{fi}", "decs": decs, "sleep": rng.choice([0, 0, 0.5, 2]), "emits": emits})
     nops = rng.randint(1, 20 if (tier == "thorough" or search) else 12)
-    keys_e = sorted({d["key"] for f in funcs for d in f["decs"] if d["kind"] == "e"}) or ["e0"]
-    keys_m = sorted({d["key"] for f in funcs for d in f["decs"] if d["kind"] == "m"})
-    keys_w = sorted({d["key"] for f in funcs for d in f["decs"] if d["kind"] == "w"})
+    all_decs = [d for f in funcs for d in f["decs"]]
     ops = []
     burst = rng.random() < 0.4
     for _ in range(nops):
         r = rng.random()
-        if keys_m and r < 0.2:
-            sub = rng.choice(keys_m + ["zz"]) if rng.random() < 0.9 else "zz"
-            topic = "t/b" if sub == "t/+" else sub
-            payload = rng.choice(["on", "5", '{"a": 1, "b": "q"}', '{"a": 2}', '"s"', "not json {", "", "null", "7"])
-            ops.append(["m", sub, topic, payload, rng.choice([0, 0, 1, 2]), rng.random() < 0.3])
-        elif keys_w and r < 0.4:
-            wid = rng.choice(keys_w + ["nohook"]) if rng.random() < 0.9 else "nohook"
-            if rng.random() < 0.5:
-                body = rng.choice([{"a": 1, "k": "v"}, {"b": "2"}, {}, 5, {"a": 2, "b": 1}])
-                ops.append(["w", wid, True, body, []])
-            else:
-                form = [[rng.choice(["a", "b", "k"]), rng.choice(["1", "2", "v"])] for _ in range(rng.randint(0, 4))]
-                ops.append(["w", wid, False, None, form])
+        if r < 0.08:
+            # an occurrence nobody listens to
+            ops.append(rng.choice([["e", "e2", [["x", 1]]], ["m", "zz", "zz", "on", 0, False], ["w", "nohook", True, {}, []]]))
         else:
-            et = rng.choice(keys_e + (["e2"] if rng.random() < 0.15 else []))
-            data = []
-            for k in DATA_KEYS:
-                if rng.random() < 0.6:
-                    data.append([k, gen_val(rng)])
-            if rng.random() < 0.06:
-                data.append(["trigger_type", "zzz"])
-            if rng.random() < 0.05:
-                data.append(["context", 7])
-            ops.append(["e", et, data])
+            d = rng.choice(all_decs)
+            ops.append(gen_occurrence(rng, d, aim=d["filt"] is not None and rng.random() < 0.65))
         if not burst and rng.random() < 0.5:
             ops.append(["settle", rng.choice([0, 0, 0.3, 1, 3])])
     takes = [rng.randrange(0, 6) for _ in range(8)]
     return {"funcs": funcs, "ops": ops, "takes": takes}
 
 
+def _dfunc(name, decs):
+    return {"name": name, "decs": decs, "sleep": 0, "emits": []}
+
+
+def _ddec(kind, key, filt, tag):
+    return {"kind": kind, "key": key, "filt": filt, "kwargs": [["_d", tag]]}
+
+
+# every documented keyword variable of every trigger kind used by a filter, with occurrences that qualify and
+# occurrences that do not (JSON and non-JSON MQTT payloads, JSON and form webhooks); run under both subsystems
+DIRECTED = [
+    {"funcs": [_dfunc("f0", [_ddec("m", "t/+", ["and", ["cmp", "eq", "payload_obj", "state", "on"], ["cmp", "eq", "qos", "-", 1]], 0),
+                             _ddec("m", "t/+", ["cmp", "gt", "payload_obj", "-", 3], 1)]),
+               _dfunc("f1", [_ddec("m", "t/+", ["cmp", "eq", "topic", "-", "t/b"], 2),
+                             _ddec("m", "u", ["or", ["cmp", "eq", "payload", "-", "on"], ["name", "retain"]], 3)])],
+     "ops": [["m", "t/+", "t/a", '{"state": "on"}', 1, False], ["m", "t/+", "t/b", '{"state": "off"}', 1, False],
+             ["m", "t/+", "t/a", '{"state": "on"}', 0, True], ["m", "t/+", "t/b", "5", 2, False],
+             ["m", "t/+", "t/a", "not json", 1, False], ["m", "t/+", "t/a", "2", 0, False],
+             ["m", "u", "u", "on", 0, False], ["m", "u", "u", "off", 0, True], ["m", "u", "u", "off", 0, False]],
+     "takes": [0]},
+    {"funcs": [_dfunc("f0", [_ddec("m", "u", ["cmp", "ge", "qos", "-", 1], 0),
+                             _ddec("m", "u", ["cmp", "eq", "trigger_type", "-", "mqtt"], 1)]),
+               _dfunc("f1", [_ddec("w", "h0", ["cmp", "eq", "payload", "a", "1"], 2)]),
+               _dfunc("f2", [_ddec("w", "h1", ["and", ["cmp", "eq", "webhook_id", "-", "h1"], ["cmp", "gt", "payload", "k", 1]], 3)])],
+     "ops": [["m", "u", "u", "x", 0, False], ["m", "u", "u", "x", 1, False], ["m", "u", "u", '{"a": 1}', 2, True],
+             ["w", "h0", False, None, [["a", "1"], ["a", "2"]]], ["w", "h0", False, None, [["a", "2"]]],
+             ["w", "h0", True, {"a": "1"}, []], ["w", "h0", True, {"a": 1}, []],
+             ["w", "h1", True, {"k": 2}, []], ["w", "h1", True, {"k": 1}, []], ["w", "h1", True, {}, []]],
+     "takes": [0]},
+    {"funcs": [_dfunc("f0", [_ddec("e", "e0", ["cmp", "gt", "x", "-", 3], 0),
+                             _ddec("e", "e0", ["cmp", "eq", "event_type", "-", "e0"], 1)]),
+               _dfunc("f1", [_ddec("e", "e0", ["cmp", "eq", "trigger_type", "-", "event"], 2),
+                             _ddec("e", "e1", ["and", ["name", "context"], ["cmp", "ne", "y", "-", "a"]], 3)])],
+     "ops": [["e", "e0", [["x", 5]]], ["e", "e0", [["x", 1]]], ["e", "e0", []], ["e", "e0", [["x", 4], ["trigger_type", "zzz"]]],
+             ["e", "e1", [["y", "a"]]], ["e", "e1", [["y", "b"]]], ["e", "e1", [["x", 1]]]],
+     "takes": [0]},
+]
+
+
 def gen_cases(rng, tier, search):
-    n = {"quick": 150, "thorough": 2000}[tier]
+    n = {"quick": 130, "thorough": 2000}[tier]
     if search:
         n = {"quick": 400, "thorough": 3000}[tier]
     cases = []
@@ -252,6 +390,12 @@ def gen_cases(rng, tier, search):
             p = json.loads(json.dumps(w))
             p["legacy"] = legacy
             cases.append(Case(p, None, tags=("legacy" if legacy else "new", "witness")))
+    if not search:
+        for sc in DIRECTED:
+            for legacy in (True, False):
+                p = json.loads(json.dumps(sc))
+                p["legacy"] = legacy
+                cases.append(Case(p, None, tags=("legacy" if legacy else "new", "directed")))
     for i in range(n):
         sc = gen_scenario(rng, tier, search)
         for legacy in (True, False):
@@ -707,7 +851,15 @@ def _run_one(p):
         line = build_line(p, obs, an)
         oracle = oracle_check(p, obs, an)
         nruns = sum(len(v) for v in an["runs"].values())
-        info = {"nlog": len(an["log"]), "nem": len(an["ems"]), "start_errors": len(obs.get("errors", []))}
+        passed = {}
+        for sl in an["slots"]:
+            d = sl["dec"]
+            k = len(an["runs"].get((sl["f"], tag_of(d)), []))
+            for v in filt_vars(d["filt"]):
+                key = d["kind"] + "." + v
+                passed[key] = passed.get(key, 0) + k
+        info = {"nlog": len(an["log"]), "nem": len(an["ems"]), "start_errors": len(obs.get("errors", [])),
+                "passed": passed}
     except Exception as e:  # pylint: disable=broad-except
         import traceback
         return {"impl": "analysis-crash", "line": None, "oracle": "harness-crash: " + traceback.format_exc()[-400:],
@@ -898,14 +1050,19 @@ def classify(c, reason):
 
 def extra_coverage(cases):
     kinds, filt, stacked, nlog, nem, errs, burst = {}, 0, 0, 0, 0, 0, 0
+    fvars, fpassed = {}, {}
     for c in cases:
         p = c.payload
+        for k, v in (p.get("_info", {}).get("passed") or {}).items():
+            fpassed[("legacy:" if p["legacy"] else "new:") + k] = fpassed.get(("legacy:" if p["legacy"] else "new:") + k, 0) + v
         for f in p["funcs"]:
             if len(f["decs"]) > 1:
                 stacked += 1
             for d in f["decs"]:
                 kinds[d["kind"]] = kinds.get(d["kind"], 0) + 1
                 filt += d["filt"] is not None
+                for v in filt_vars(d["filt"]):
+                    fvars[d["kind"] + "." + v] = fvars.get(d["kind"] + "." + v, 0) + 1
         i = p.get("_info", {})
         nlog += i.get("nlog", 0)
         nem += i.get("nem", 0)
@@ -913,7 +1070,8 @@ def extra_coverage(cases):
         burst += not any(o[0] == "settle" for o in p["ops"])
     return {"decorator_kinds": kinds, "decorators_with_filter": filt, "functions_with_stacked_decorators": stacked,
             "occurrences_observed": nlog, "emissions_observed": nem, "burst_only_scenarios": burst,
-            "function_start_failures_seen": errs}
+            "function_start_failures_seen": errs, "filters_using_variable": dict(sorted(fvars.items())),
+            "runs_started_through_filter_on_variable": dict(sorted(fpassed.items()))}
 
 
 def shrink(c, reason):
